@@ -231,6 +231,7 @@ def run(chk):
     chk.rule("C09.R2", "the initial index of every store forces a reshuffle at the first draw and index + batch size cannot "
                        "overflow int32 (generators built through the repository's constructors, three size assignments)", floor=20)
     run_initial_index(chk, G, "C09.R2")
+    run_first_draw(chk, chk.repo, "C09.R2")
 
 
 # ---------------------------------------------------------------------------------------------------------------------
@@ -323,3 +324,57 @@ def run_initial_index(chk, G, rule_id):
                                     f"(wraps around under jit, not eagerly)", "index + batch size <= int32 max for every batch size")
                 return f"{n} <= idx0 + b = int32max - {INT32_MAX - i0 - b} <= int32max"
             chk.run(rule_id, f"{MOD}:{cname}.__post_init__", dict(sizes, field=field), go, construct=f"{cname}.{field} initial value")
+
+
+def run_first_draw(chk, repo, rule_id):
+    """the value actually compared with the epoch length at the FIRST draw of a freshly constructed generator: it must force
+    a reshuffle and stay within int32 (eagerly it is a Python int, under jit an int32: beyond int32 max the two disagree)"""
+    from ..extern import make_world
+    seen = []
+
+    def stub(bend, n_eff, operands):
+        seen.append((bend, n_eff))
+        return (operands[0], operands[1], 0)
+    w = make_world(repo, overrides={(MOD, '_reset_or_increment'): stub})
+    G = GenEnv(repo, w)
+    for sizes in ({'bt': 7, 'bx': 5, 'bb': 3, 'bo': 8, 'bp': 4}, {'bt': 3, 'bx': 4, 'bb': 11, 'bo': 2, 'bp': 9}):
+        key = Sym('key')
+        from ..alg import Fv
+        box = dict(min_pts=(K('min0'), K('min1')), max_pts=(K('max0'), K('max1')))
+        gens = [
+            ("DataGeneratorODE", lambda: G.cls("DataGeneratorODE")(key, 60, K('tmin'), K('tmax'), sizes['bt']), ['temporal_batch']),
+            ("CubicMeshPDEStatio", lambda: G.cls("CubicMeshPDEStatio")(key=key, n=64, nb=48, omega_batch_size=sizes['bx'],
+                                                                       omega_border_batch_size=sizes['bb'], dim=2, **box),
+             ['inside_batch', 'border_batch']),
+            ("CubicMeshPDENonStatio", lambda: G.cls("CubicMeshPDENonStatio")(key=key, n=64, nb=48, omega_batch_size=sizes['bx'],
+                                                                             omega_border_batch_size=sizes['bb'], dim=2, **box,
+                                                                             temporal_batch_size=sizes['bt'], tmin=K('tmin'),
+                                                                             tmax=K('tmax'), nt=60),
+             ['inside_batch', 'border_batch', 'temporal_batch']),
+            ("DataGeneratorObservations", lambda: G.cls("DataGeneratorObservations")(key, sizes['bo'], Fv('obs_in', (40, 1)), Fv('obs_val', (40, 1))),
+             ['obs_batch']),
+            ("DataGeneratorParameter", lambda: G.cls("DataGeneratorParameter")(key, 36, sizes['bp'], {"nu": (K('lo'), K('hi'))}), ['param_batch']),
+        ]
+        for cname, mk, methods in gens:
+            for meth in methods:
+                def go(mk=mk, meth=meth, cname=cname):
+                    gen = mk()
+                    del seen[:]
+                    getattr(freeze(gen), meth)()
+                    if not seen:
+                        raise Inconclusive(f"{cname}.{meth} does not go through _reset_or_increment")
+                    out = []
+                    for bend, n_eff in seen:
+                        try:
+                            b, n = int(bend), int(n_eff)
+                        except Exception:
+                            raise Inconclusive(f"first-draw end index is not concrete: {bend!r} / {n_eff!r}")
+                        if b < n:
+                            raise Violation(f"{cname}.{meth}", f"first draw compares {b} with the epoch length {n}: no reshuffle",
+                                            "a reshuffle at the first draw")
+                        if b > INT32_MAX:
+                            raise Violation(f"{cname}.{meth}", f"the end index of the first draw is int32 max + {b - INT32_MAX}: it wraps "
+                                            f"around under jit (int32) but not eagerly (Python int)", "end index <= int32 max")
+                        out.append(f"{n} <= {b} = int32max - {INT32_MAX - b}")
+                    return "; ".join(out)
+                chk.run(rule_id, f"{MOD}:{cname}.{meth} (first draw)", dict(sizes), go, construct=f"{cname}.{meth} first draw")
